@@ -90,6 +90,28 @@ def main(argv):
         checks = argv[2:] or existing_checks()
         bad = determinism(checks, n)
         return 1 if bad else 0
+    if what == "pool":
+        # the whole search is a pure function of (seed, check): identical set of event-log digests at 3 and at 16 workers, in fresh interpreters
+        import tempfile, shutil
+
+        n = int(argv[1]) if len(argv) > 1 else 1500
+        bad = 0
+        for cid in argv[2:] or existing_checks():
+            got = []
+            t0 = time.time()
+            for workers, hs in ((3, "0"), (16, "4242")):
+                d = tempfile.mkdtemp(prefix="verif_pool_")
+                try:
+                    env = dict(os.environ, VERIF_EVIDENCE_DIR=d, PYTHONHASHSEED=hs, VERIF_KEEP_HASHSEED="1", VERIF_NO_CORPUS="1")
+                    p = subprocess.run([sys.executable, os.path.join(rt.VERIF_ROOT, "check"), cid, "--runs", str(n), "--wall", "3000", "--workers", str(workers), "--no-shrink"], env=env, stdout=subprocess.PIPE, stderr=subprocess.STDOUT, text=True, timeout=3600)
+                    ev = json.load(open(os.path.join(d, cid + ".json")))
+                    got.append((ev["coverage"]["event_log_set_digest"], ev["coverage"]["distinct_event_logs"], ev["coverage"]["evaluations"], p.returncode))
+                finally:
+                    shutil.rmtree(d, ignore_errors=True)
+            ok = got[0] == got[1]
+            bad += 0 if ok else 1
+            print("pool-determinism %s: %d seeds at 3 workers (PYTHONHASHSEED=0) and 16 workers (PYTHONHASHSEED=4242): %s %s (%.1fs)" % (cid, n, "identical" if ok else "DIFFERENT", got, time.time() - t0), flush=True)
+        return 1 if bad else 0
     if what == "sensitivity":
         from . import sensitivity
 
